@@ -123,3 +123,10 @@ package resolver
 //@   ensures alwaysStrict: derived.TSAlwaysStrict == (base.TSAlwaysStrict != nil ? base.TSAlwaysStrict : old(derived.TSAlwaysStrict))
 //@   ensures baseURL: derived.BaseURL == (base.BaseURL != nil ? base.BaseURL : old(derived.BaseURL))
 //@   ensures paths: derived.Paths == (base.Paths != nil ? base.Paths : old(derived.Paths))
+
+// C16 (termination): the `extends` chain of tsconfig files is cut by a visited set. The set is filled with REAL paths
+// (after EvalSymlinks), so the membership test must use the real path too: tested through the path as written, a cycle
+// that goes through a symlink (tsconfig.json extends ./alias.json -> tsconfig.json) is never seen and the recursion does
+// not end. The key that is looked up is the same value that is recorded.
+//@ flow extends-cycle-test-uses-the-recorded-key C16: func=(resolverQuery).parseTSConfig ; in=resolver ; site=lookup * ; when-map=visited ; keypath=phi:file
+//@ flow extends-cycle-record-uses-the-real-path C16: func=(resolverQuery).parseTSConfig ; in=resolver ; site=mapupdate visited ; mapkey=phi:file
